@@ -1168,6 +1168,7 @@ func (m *Machine) chanRecv(fr *frame, ch *Chan, et types.Type) (Value, bool) {
 		return m.zero(et), false
 	}
 	if ch.Timer {
+		m.timerFired(ch)
 		return m.zero(et), true
 	}
 	m.abort(abBlocked, "receive on empty channel with no sender (sequential mode) at %s", fr.site())
@@ -1181,6 +1182,32 @@ func (m *Machine) selectOp(fr *frame, instr *ssa.Select) Value {
 	chosen := -1
 	var recv Value
 	recvOk := false
+	// a timer that was created already expired is ready like any other case:
+	// Go's select picks among the ready cases at random (forked choice)
+	var expired []int
+	others := false
+	for i, st := range instr.States {
+		ch, _ := fr.get(st.Chan).(*Chan)
+		if ch == nil {
+			continue
+		}
+		if st.Dir == types.RecvOnly && ch.Timer && ch.Expired {
+			expired = append(expired, i)
+		} else if st.Dir != types.RecvOnly || len(ch.Buf) > 0 || ch.Closed {
+			others = true
+		}
+	}
+	if len(expired) > 0 {
+		n := len(expired)
+		if others {
+			n++
+		}
+		if k := m.Choose(n); k < len(expired) {
+			chosen = expired[k]
+			st := instr.States[chosen]
+			recv, recvOk = m.zero(st.Chan.Type().Underlying().(*types.Chan).Elem()), true
+		}
+	}
 	// a ready non-timer channel wins; then timers; then default
 	for pass := 0; pass < 2 && chosen < 0; pass++ {
 		for i, st := range instr.States {
@@ -1195,6 +1222,7 @@ func (m *Machine) selectOp(fr *frame, instr *ssa.Select) Value {
 					break
 				}
 				if pass == 1 && ch.Timer {
+					m.timerFired(ch)
 					recv, recvOk = m.zero(st.Chan.Type().Underlying().(*types.Chan).Elem()), true
 					chosen = i
 					break
@@ -1257,7 +1285,7 @@ func (m *Machine) selectSched(fr *frame, instr *ssa.Select) Value {
 				// timers fire (at an arbitrary moment) only where the harness
 				// asks for slow peers; otherwise peers are prompt and a timer
 				// never wins against an answer that will arrive
-				if len(ch.Buf) > 0 || ch.Closed || (ch.Timer && m.cfg("sched.timersFire")) {
+				if len(ch.Buf) > 0 || ch.Closed || (ch.Timer && (ch.Expired || m.cfg("sched.timersFire"))) {
 					r = append(r, i)
 				}
 			} else {
@@ -1283,6 +1311,7 @@ func (m *Machine) selectSched(fr *frame, instr *ssa.Select) Value {
 		case ch.Closed:
 			recv, recvOk = m.zero(et), false
 		default: // timer fires
+			m.timerFired(ch)
 			recv, recvOk = m.zero(et), true
 		}
 	} else {
